@@ -517,8 +517,10 @@ class VM:
                     # __proto__ in object literal sets the prototype
                     if value is NULL or value is None:
                         obj._prototype = None
+                        obj._null_prototype = True
                     elif isinstance(value, JSObject):
                         obj._prototype = value
+                        obj._null_prototype = False
                 else:
                     obj.define_value(key_str, value)
             self.stack.append(obj)
@@ -1240,8 +1242,9 @@ class VM:
                         return UNDEFINED
                     return self._invoke_getter(getter, obj)
                 return holder.get_own(key_str)
-            # Built-in Object methods as fallback
-            if key_str in ("toString", "hasOwnProperty"):
+            # Built-in Object methods as fallback (an object a built-in made and
+            # that is not linked to Object.prototype yet)
+            if key_str in ("toString", "hasOwnProperty") and not obj._null_prototype:
                 return self._make_object_method(obj, key_str)
             return UNDEFINED
 
@@ -2743,13 +2746,15 @@ class VM:
             setter(value)
 
     def _adopt(self, value: JSValue) -> JSValue:
-        """Arrays made by a built-in (also inside the arrays and plain objects it
-        made) inherit from this context's Array.prototype, like array literals."""
+        """Arrays and plain objects made by a built-in (also inside the arrays and
+        plain objects it made) inherit from this context's Array.prototype and
+        Object.prototype, like literals."""
         if not isinstance(value, JSObject) or value._prototype is not None:
             return value
         proto = getattr(self.globals.get("Array"), "_prototype", None)
         if proto is None:
             return value
+        object_proto = self._object_prototype()
         pending, seen = [value], set()
         while pending:
             item = pending.pop()
@@ -2762,6 +2767,12 @@ class VM:
                 item._prototype = proto
                 pending.extend(item._elements)
             elif type(item) is JSObject:
+                if (
+                    object_proto is not None
+                    and item is not object_proto
+                    and not item._null_prototype
+                ):
+                    item._prototype = object_proto
                 pending.extend(item._properties.values())
         return value
 
